@@ -1,4 +1,7 @@
 """C04 - ignored patterns are skipped exactly at token boundaries."""
+import random
+
+import gen
 import pegcheck
 
 
@@ -14,3 +17,21 @@ def run(chk):
                         'that satisfy its side conditions']
     cases = pegcheck.collect(chk, 'MC_C04', 'MC_C04_' + chk.tier, timeout_s=3000)
     pegcheck.replay(chk, cases, sample_every=9973)
+    # seeded random deeper grammars with ignore declarations, judged by the same specification
+    rng = random.Random(chk.seed * 7919 + 4)
+    n = 600 if chk.tier == 'quick' else 8000
+    blank = ['rx', ['plus', gen.cls(' '), True], False]
+    dash = gen.S('-')
+    comment = ['left', ['right', gen.S('('), ['rx', ['star', gen.cls('ab'), True], False]], gen.S(')')]
+    texts = gen.all_texts('ab ', 4) + [gen.T(x) for x in [' a  b ', 'a - b', '(ab) a( )b', 'ab  ab ', '-a-', ' (a)a (b) b', 'a (']]
+    rcases = []
+    for i in range(n):
+        cg = gen.CoreGen(rng, allow_back=(i % 3 == 0))
+        g = cg.grammar(3 if i % 2 else 2)
+        g['ign'] = rng.choice([[blank], [blank, dash], [blank, comment], [dash, blank]])
+        rcases.append({'id': i, 'g': g,
+                       'cfg': {'prop': 'C04', 'ign_first': bool(i % 2), 'ign_names': rng.choice([None, ['Blank', 'Junk']])},
+                       'runs': [[rng.choice(['start', 'start', 'R1']), t, 0] for t in texts]})
+    pegcheck.with_oracle(chk, rcases)
+    chk.notes['random_grammars'] = len(rcases)
+    pegcheck.replay(chk, rcases, sample_every=19997)
